@@ -35,8 +35,16 @@ pub fn stub_errors_new() -> Errors {
 pub fn stub_errors_push(this: &mut Errors, err: Error) {
     let len = this.inner.len();
     assert!(len < 4, "model bound exceeded: more than 4 rpc-errors in one reply");
+    // one arm per concrete index: a write at a symbolic offset into the buffer is far more
+    // expensive for CBMC than a guarded write at a constant one
     unsafe {
-        std::ptr::write(this.inner.as_mut_ptr().add(len), err);
+        let p = this.inner.as_mut_ptr();
+        match len {
+            0 => std::ptr::write(p, err),
+            1 => std::ptr::write(p.add(1), err),
+            2 => std::ptr::write(p.add(2), err),
+            _ => std::ptr::write(p.add(3), err),
+        }
         this.inner.set_len(len + 1);
     }
 }
